@@ -368,6 +368,47 @@ fn open_upvalue_lists() -> Vec<String> {
     out
 }
 
+
+/// Values an embedding holds on to across `Vm::reset()`: whatever such a value can still reach - the module
+/// whose code it runs and that module's globals, its class, its captured variables, a suspended fiber's
+/// stack - stays intact although the interpreter has forgotten every module and global.  One history per
+/// kind of value: import a module, read the value into a global, keep it (rooted by the host), reset, hand
+/// it back, allocate garbage, use it.  (source pieces joined by SNIPPET_SEPARATOR, module table)
+fn kept_across_reset() -> Vec<(String, BTreeMap<String, String>)> {
+    let module = "var secret = [\"module\", \"global\"];\nvar counter = 0;\nfn f() { counter += 1; return [secret, counter]; }\nfn mk() { var loc = [\"captured\", \"local\"]; return || { loc.push(secret[0]); return loc; }; }\n#[constructor(new)]\nclass C { fn m(self) { return secret; } #[static] fn s() { return secret; } }\nfn fib() { var fb = Fiber.new(|| { var keep = [\"fiber\", \"local\"]; Fiber.yield(keep[0]); return [keep, secret]; }); fb.call(); return fb; }\nfn gen() { return [1, 2, 3].iter().map(|e| [e, secret[1]]); }\n";
+    let kinds: Vec<(&str, &str, &str)> = vec![
+        ("function of the module", "zm.f", "h()"),
+        ("closure made by a function of the module", "zm.mk()", "h()"),
+        ("instance of a class of the module", "zm.C.new()", "h.m()"),
+        ("bound method of such an instance", "zm.C.new().m", "h()"),
+        ("class of the module", "zm.C", "h.s()"),
+        ("static method of a class of the module", "zm.C.s", "h()"),
+        ("fiber suspended in code of the module", "zm.fib()", "h.call()"),
+        ("lazy iterator whose callback is code of the module", "zm.gen()", "h.collect()"),
+        ("vec holding a function of the module", "[zm.f, zm.mk()]", "[h[0](), h[1]()]"),
+        ("map holding a function of the module", "{\"k\": zm.f}", "h.get(\"k\")()"),
+        ("closure of the main program over a function of the module", "(|g| || g())(zm.f)", "h()"),
+        ("the module object itself", "zm", "h.f()"),
+    ];
+    let garbage = "var zz_junk = [];\nfor i in 0..30 { zz_junk.push([i, \"s${i}\", (i, i), {i: i}]); }\nzz_junk = nil;\n";
+    let mut out = Vec::new();
+    for (what, make, use_) in kinds {
+        for resets in [1usize, 2] {
+            let mut pieces: Vec<String> = vec![format!("import \"zz_kept\" as zm;\nvar h = {};\nprint(\"{}\");\n", make, what), "\u{0}host:keep_global:h".into()];
+            for _ in 0..resets {
+                pieces.push("\u{0}reset".into());
+                pieces.push(garbage.to_string());
+            }
+            pieces.push("\u{0}host:restore_global:h".into());
+            pieces.push(format!("{}print({});\n{}print({});\n", garbage, use_, garbage, if what.starts_with("fiber") { "h.has_finished()" } else { use_ }));
+            let mut modules = BTreeMap::new();
+            modules.insert("zz_kept".to_string(), module.to_string());
+            out.push((pieces.join(SNIPPET_SEPARATOR), modules));
+        }
+    }
+    out
+}
+
 pub fn run(ctx: &Ctx) -> Report {
     let mut report = Report::new();
     let active = active_findings(ctx, &mut report);
@@ -508,6 +549,7 @@ pub fn run(ctx: &Ctx) -> Report {
         corpus.push((print_program(&c.prog, false), modules));
     }
     corpus.extend(open_upvalue_lists().into_iter().map(|s| (s, BTreeMap::new())));
+    corpus.extend(kept_across_reset());
     let n_corpus = corpus.len();
     let corpus_accs = par_map(&ctx.runner_checked, ctx.workers, corpus.into_iter(), |runner, _i, (src, modules)| {
         runner.timeout = std::time::Duration::from_secs(60);
@@ -527,7 +569,7 @@ pub fn run(ctx: &Ctx) -> Report {
         if !uaf.is_empty() || !same(&never, &always) {
             acc.violations.push((
                 format!("[corpus program] under collect-at-every-allocation: use-after-free events {:?}; output {:?} vs never-collect output {:?}", uaf.iter().take(3).collect::<Vec<_>>(), always.as_ref().map(|r| (&r.out, &r.outcome)), never.as_ref().map(|r| (&r.out, &r.outcome))),
-                json!({"family": "corpus", "request": {"op": "run", "snippets": [src], "modules": modules, "gc": {"mode": "default", "quarantine": true}, "want": ["uaf"]}, "uaf": uaf, "observed": always, "never_collect_run": never}),
+                json!({"family": "corpus", "request": {"op": "run", "snippets": src.split(SNIPPET_SEPARATOR).collect::<Vec<_>>(), "modules": modules, "gc": {"mode": "default", "quarantine": true}, "want": ["uaf"]}, "uaf": uaf, "observed": always, "never_collect_run": never}),
             ));
         }
         acc
